@@ -14,7 +14,7 @@ TYPES = ["Pin", "Slider", "Universal", "Cylinder", "BendStretch", "Planar", "Gim
 EXTRACT = '''From Coq Require Import Extraction ExtrOcamlBasic.
 Require Import Num Vec C28_Defs rot_gen C05_Model.
 Extraction Language OCaml.
-Extraction "c05.ml" rep_X rep_H rep_V mob_X mob_H mob_N mob_NInv mob_NDot mob_fitQ mob_fitU Hu mkSpec.
+Extraction "c05.ml" rep_X rep_H rep_V mob_X mob_H mob_N mob_NInv mob_NDot mob_fitQ mob_fitU rep_fitR rep_fitT rep_fitW rep_fitLV Hu mkSpec.
 '''
 
 def build(ctx):
@@ -67,11 +67,14 @@ def run_corr(ctx, d, n, rtol=1e-9, atol=1e-11):
         name = TYPES[a['type']]; combo = (name, a['rev'], a['euler'])
         hist['%s%s%s' % (name, '(rev)' if a['rev'] else '', '/euler' if a['euler'] else '')] += 1
         combos.add(combo)
-        u = a['nums'][a['np'] + a['nq']:]
+        u = a['nums'][a['np'] + a['nq']:a['np'] + a['nq'] + a['nu']]
         for key, va in a['outs'].items():
-            if key[0] in ('X', 'V', 'H'):
+            if key[0] in ('X', 'V', 'H', 'PFR', 'PFT', 'PFW', 'PFL'):
                 ncmp[key[0]] += 1
-                if not vclose(va, b['outs'].get(key), rtol, atol):
+                vb = b['outs'].get(key)
+                if key[0] in ('X', 'V', 'H'): ok = vclose(va, vb, rtol, atol)
+                else: ok = vb is not None and vclose(va[:len(vb)], vb, 1e-8, 1e-9)     # partial fits; unused trailing q slot in Euler mode
+                if not ok:
                     dis.append({'case': k, 'tag': key[0], 'index': key[1], 'impl': va, 'model': b['outs'].get(key), 'input': a['case'], 'mobilizer': name})
         # fit round trips on the implementation: pose and speeds reproduced (compared with the model's X and the input u)
         mX = b['outs'].get(('X', 0)); mV = b['outs'].get(('V', 0))
